@@ -103,6 +103,17 @@ def nonpos(d, facts, depth=2):
         return True
     datoms = set(a for a, _ in d.terms)
     cand = [(op, f) for op, f in facts if op in ("<", "<=", "==") and any(a in datoms for a, _ in f.terms)]
+    # one-step implications are tried against every fact; the two-step search below stays bounded
+    if len(cand) > 24:
+        for op, f in cand[:-24]:
+            for r in ([_step(d, op, f)] if op != "==" else [d - f, d + f]):
+                if r is None:
+                    continue
+                if r.is_const():
+                    if r.k <= 0:
+                        return True
+                elif r.k <= 0 and all(c < 0 and atom_nonneg(a) for a, c in r.terms):
+                    return True
     cand = cand[-24:]
     rest = []
     for op, f in cand:
